@@ -21,23 +21,23 @@ theorem digitChar_spec : ∀ d, d < 10 → (digitChar d).toNat = 48 + d ∧ (dig
   | n+10, h => by omega
 
 theorem foldl_digits (ds : List Char) : ∀ acc0 : Nat,
-    ds.foldl (fun acc c => acc * 10 + (c.toNat - 48)) acc0 = acc0 * 10 ^ ds.length + digitsToNat ds := by
+    ds.foldl (fun acc c => acc * 10 + (c.toNat - 48)) acc0 = acc0 * 10 ^ ds.length + digitsToNatE ds := by
   induction ds with
-  | nil => intro acc0; simp [digitsToNat]
+  | nil => intro acc0; simp [digitsToNatE]
   | cons c ds ih =>
     intro acc0
-    simp only [List.foldl_cons, digitsToNat, List.length_cons]
+    simp only [List.foldl_cons, digitsToNatE, List.length_cons]
     rw [ih, ih (0 * 10 + (c.toNat - 48))]
     ring
 
 theorem digitsToNat_cons (c : Char) (ds : List Char) :
-    digitsToNat (c :: ds) = (c.toNat - 48) * 10 ^ ds.length + digitsToNat ds := by
-  simp only [digitsToNat, List.foldl_cons]
+    digitsToNatE (c :: ds) = (c.toNat - 48) * 10 ^ ds.length + digitsToNatE ds := by
+  simp only [digitsToNatE, List.foldl_cons]
   rw [foldl_digits]
-  simp [digitsToNat]
+  simp [digitsToNatE]
 
 theorem digitsAux_val : ∀ (f n : Nat) (acc : List Char), n < f →
-    digitsToNat (digitsAux f n acc) = n * 10 ^ acc.length + digitsToNat acc
+    digitsToNatE (digitsAux f n acc) = n * 10 ^ acc.length + digitsToNatE acc
   | 0, _, _, h => by omega
   | f+1, n, acc, h => by
     simp only [digitsAux]
@@ -55,10 +55,10 @@ theorem digitsAux_val : ∀ (f n : Nat) (acc : List Char), n < f →
       subst this
       ring
 
-theorem natDigits_val (n : Nat) : digitsToNat (natDigits n) = n := by
+theorem natDigits_val (n : Nat) : digitsToNatE (natDigits n) = n := by
   unfold natDigits
   rw [digitsAux_val _ _ _ (by omega)]
-  simp [digitsToNat]
+  simp [digitsToNatE]
 
 theorem natDigits_inj {a b : Nat} (h : natDigits a = natDigits b) : a = b := by
   rw [← natDigits_val a, ← natDigits_val b, h]
